@@ -399,6 +399,41 @@ func ruleDeadlineDirection(c *Ctx, r *R) {
 				first = true
 			}
 		}
+		// the same test the other way round (`if d > 0 { … }; return nil`): the edge on which d <= 0 leads, through blocks that
+		// do nothing, to a return of nil
+		if cf, ok := (guard{cond: iff.Cond, val: false}).asCmp(); ok && !first && cf.x == ssa.Value(dP) && cf.op == token.LEQ && isConstInt(cf.y, 0) {
+			b := fn.Blocks[0].Succs[1]
+			prev := fn.Blocks[0]
+			for hops := 0; hops < 3 && b != nil; hops++ {
+				idle := true
+				for _, in := range b.Instrs {
+					switch in.(type) {
+					case *ssa.Phi, *ssa.Jump, *ssa.Return, *ssa.DebugRef:
+					default:
+						idle = false
+					}
+				}
+				if !idle {
+					break
+				}
+				if ret, ok := b.Instrs[len(b.Instrs)-1].(*ssa.Return); ok {
+					v := returnedValue(ret, 0)
+					if phi, isPhi := v.(*ssa.Phi); isPhi && phi.Block() == b {
+						for pi, pb := range b.Preds {
+							if pb == prev && pi < len(phi.Edges) {
+								v = phi.Edges[pi]
+							}
+						}
+					}
+					first = isNilConst(v)
+					break
+				}
+				if len(b.Succs) != 1 {
+					break
+				}
+				prev, b = b, b.Succs[0]
+			}
+		}
 	}
 	r.ok(first, "xtime.SleepContext|nonpositive-first", fn.Pos(), "d <= 0 must return nil at once, before any deadline test")
 	// the timer runs for d; select arms
